@@ -62,8 +62,15 @@ const CAPS: &[usize] = &[0, 0, 1, 2, 3, 5, 8, 16, 17];
 
 impl<'a> G<'a> {
     fn emit(&mut self, op: String) -> String {
+        // the op is written (and flushed) BEFORE it runs, so that a crash of the process leaves the
+        // crashing op as the last, unfinished line of the trace
+        {
+            use std::io::Write;
+            print!("{} => ", op);
+            let _ = std::io::stdout().flush();
+        }
         let obs = self.st.exec(&op);
-        println!("{} => {}", op, obs);
+        println!("{}", obs);
         self.ops += 1;
         if (obs.starts_with("panic") || obs.contains("end=panic") || obs.starts_with("panic:")) && !self.in_battery && self.st.worlds.get(self.st.cur).map_or(false, |w| w.is_some()) {
             // C10: after every caught panic, the full battery on the world it left behind
@@ -338,7 +345,61 @@ impl<'a> G<'a> {
             let c = self.cur();
             let l = self.live[c].clone();
             self.live.push(l);
+            // C13: the same observations on the source and on the fresh clone, before either changes
+            let nw: Option<usize> = obs.split_whitespace().next().and_then(|t| t[1..].parse().ok());
+            if let (Some(nw), true) = (nw, self.rng.chance(70)) {
+                let mut vars: Vec<String> = Vec::new();
+                let ne = self.ents.len();
+                for (n, _) in &self.ents[ne.saturating_sub(6)..] {
+                    vars.push(n.clone());
+                }
+                let nd = self.dirs.len();
+                for (n, _) in &self.dirs[nd.saturating_sub(4)..] {
+                    vars.push(n.clone());
+                }
+                for _ in 0..3 {
+                    if let Some(h) = self.pick_any_ent() {
+                        vars.push(h.0);
+                    }
+                }
+                for v in &vars {
+                    self.emit(format!("probe {}", v));
+                }
+                self.emit(format!("switch {}", nw));
+                for v in &vars {
+                    self.emit(format!("probe {}", v));
+                }
+                self.emit(format!("switch {}", c));
+            }
         }
+    }
+    /// C14: Eq/Hash of a pair of handles, biased towards pairs that share the key word
+    /// (same position, possibly another generation).
+    fn cmp_pair(&mut self) {
+        let use_dir = self.rng.chance(45) && self.dirs.len() >= 2;
+        let pool: Vec<String> = if use_dir { self.dirs.iter().map(|x| x.0.clone()).collect() } else { self.ents.iter().map(|x| x.0.clone()).collect() };
+        if pool.len() < 2 {
+            return;
+        }
+        let h1 = pool[self.rng.below(pool.len())].clone();
+        let key_of = |st: &St, n: &String| -> Option<(u64, u64)> {
+            match st.hs.get(n) {
+                Some(H::Ent { any, .. }) => Some((any.raw().0 as u64, any.raw().1 as u64)),
+                Some(H::Dir { any, .. }) => Some(crate::queries::dir_words(*any)),
+                None => None,
+            }
+        };
+        let k1 = key_of(self.st, &h1);
+        let same: Vec<String> = pool.iter().filter(|n| **n != h1 && key_of(self.st, n).map(|x| x.0) == k1.map(|x| x.0)).cloned().collect();
+        let same_dv: Vec<String> = same.iter().filter(|n| key_of(self.st, n) != k1).cloned().collect();
+        let h2 = if !same_dv.is_empty() && self.rng.chance(45) {
+            same_dv[self.rng.below(same_dv.len())].clone()
+        } else if !same.is_empty() && self.rng.chance(50) {
+            same[self.rng.below(same.len())].clone()
+        } else {
+            pool[self.rng.below(pool.len())].clone()
+        };
+        self.emit(format!("cmp {} {}", h1, h2));
     }
     fn switch(&mut self) {
         let n = self.st.worlds.len();
@@ -442,6 +503,9 @@ impl<'a> G<'a> {
         if obs.starts_with("ok") {
             self.emit(format!("probe {}", h));
             self.emit(format!("conv {}", h));
+            if self.rng.chance(50) {
+                self.cmp_pair();
+            }
             if self.rng.chance(40) {
                 let q = self.rng.below(crate::queries::MENU.len());
                 let k = self.knd();
@@ -816,7 +880,10 @@ pub fn run_sequence(st: &mut St, seed: u64, maxops: usize, profile: &str) {
             }
             4 => {
                 let n = 1 + g.rng.below(3);
-                g.probe_some(n)
+                g.probe_some(n);
+                if g.rng.chance(35) {
+                    g.cmp_pair();
+                }
             }
             5 => g.write(),
             6 => g.query(),
